@@ -41,7 +41,7 @@ def do_import():
     try:
         for pid in sorted(os.listdir(INCOMING)):
             d = os.path.join(INCOMING, pid)
-            for x in ("a", "b"):
+            for x in ("a", "b", "c", "d", "e"):
                 patch = os.path.join(d, "patch_%s.rebased.diff" % x)
                 if not os.path.exists(patch):
                     patch = os.path.join(d, "patch_%s.diff" % x)
@@ -52,6 +52,8 @@ def do_import():
                 if not os.path.exists(meta):
                     meta = os.path.join(d, "meta_%s.json" % x)
                 if not (os.path.exists(patch) and os.path.exists(demo)):
+                    continue
+                if os.path.exists(os.path.join(SEEDED, "%s-%s" % (pid, x), "patch.diff")) and "--force" not in sys.argv:
                     continue
                 res = confirm(patch, demo, wt)
                 ok = res.get("applies") and res["clean_demo_exit"] == 0 and res["patched_demo_exit"] == 1 and "217 passed" in res["tests_with_patch"]
